@@ -39,4 +39,106 @@ def c07(tier):
     return v.finish()
 
 
-TABLE = {"C07": c07}
+def c08(tier):
+    v = Verdict("C08", tier)
+    model_step(v, "intended/C08.cfg", need=("CreateTmp", "RenameTmp", "Drain", "FlushTmp", "Exit"))
+    binary = common.build_breadlog()
+    batch = rl.Batch()
+    follow = lambda h: h.run("check")
+    errs = ["EIO", "ENOSPC", "EACCES", "EXDEV"] if tier == "thorough" else ["EIO", "EXDEV", "ENOSPC"]
+    scens = []
+    for structured in (False, True):
+        scens += rl.small_trees(structured=structured)
+    scens.append(rl.sized_tree("sized-40k", 40000))
+    if tier == "thorough":
+        scens.append(rl.sized_tree("sized-300k", 300000, structured=True))
+    tmpops = ("tmp.create", "tmp.write", "tmp.rename", "tmp.fsync", "tmp.unlink")
+    for sc in scens:
+        K, n = rl.sweep(binary, sc, "edit", errs + ["short"], batch, v, follow=follow, only_ops=tmpops)
+        log("[sweep] %s: %d operations, %d runs" % (sc.name, K, n))
+        # multiple simultaneous failures on any subset of the files
+        multi = []
+        for op in ("open,path=.tmp", "write,path=.tmp", "rename"):
+            for nth in (0, 2):
+                for e in (5, 28, 18) if op == "rename" else (5, 28):
+                    multi.append([("edit", "op=%s,nth=%d:errno=%d" % (op, nth, e)), ("check", "")])
+        multi.append([("edit", "op=rename,nth=1:errno=18;op=write,path=.tmp,nth=3:errno=5"), ("check", "")])
+        multi.append([("edit", "op=open,path=.tmp,nth=1:errno=13;op=rename,nth=1:errno=5"), ("check", "")])
+        rl.planned_runs(binary, sc, multi, batch, v)
+    # a temporary directory on a different filesystem from the sources: a genuine EXDEV
+    for structured in (False, True):
+        for sc in rl.small_trees(structured=structured):
+            sc.kw["tmp_on_other_fs"] = True
+            sc.name += "-xdev"
+            rl.planned_runs(binary, sc, [[("edit", ""), ("check", "")]], batch, v, sigbase={"xdev": True})
+    batch.judge(v, {"C08"})
+    v.cov["rule"] = ("errno / short-write injection at every temp-file operation of an edit run, multi-fault plans on "
+                     "every / every-second create, write and rename, and a real cross-device TMPDIR; each followed by "
+                     "a --check; distinct = (scenario, plan)")
+    v.assumptions += ["injected failures are returned at the libc boundary before the operation is performed"]
+    return v.finish()
+
+
+def c18(tier):
+    v = Verdict("C18", tier)
+    model_step(v, "intended/C18.cfg", need=("Signal", "Discover", "ScanFile", "Pass1File", "Pass2Next", "LockWrite"))
+    r = run_tlc("MCRun.tla", "intended/C18live.cfg", workers=min(8, common.NCPU), coverage=False)
+    require_tlc_ok(r, "C18live")
+    v.add_tlc(r, "intended/C18live.cfg (liveness: stop ~> exit)")
+    binary = common.build_breadlog()
+    batch = rl.Batch()
+    scens = []
+    for structured in ((False, True) if tier == "thorough" else (False,)):
+        for lock in (None, 2):
+            for sc in rl.small_trees(structured=structured, lock=lock if lock is None else 40):
+                sc.name += "-lock%s" % lock
+                scens.append(sc)
+    # a tree with nothing missing: interrupted runs may legitimately exit 0 there
+    scens.append(rl.Scenario("all-referenced", {"f1.rs": [rl.S(11, ref=1)], "f2.rs": [rl.S(21, ref=2)]}))
+    for sc in scens:
+        for mode in ("check", "edit"):
+            K, n = rl.sweep(binary, sc, mode, ["INT", "TERM"], batch, v)
+        log("[sweep] %s: %d operations" % (sc.name, K))
+    batch.judge(v, {"C18"})
+    v.cov["rule"] = ("SIGINT and SIGTERM raised inside the interposed call immediately before every counted operation k of "
+                     "check and edit runs (signals before the handlers exist included); distinct = (scenario, mode, k, signal)")
+    v.cov["exhaustive"] = True
+    v.assumptions += ["a signal raised synchronously inside an intercepted libc call stands for a signal arriving "
+                      "between the two surrounding operations"]
+    return v.finish()
+
+
+def c04(tier):
+    v = Verdict("C04", tier)
+    model_step(v, "intended/C04.cfg", need=("ScanFile", "Signal", "Kill"))
+    binary = common.build_breadlog()
+    batch = rl.Batch()
+    extra = {"notes.txt": "not a source file\n", "src/readme.md": "out of scope\n"}
+    n = 0
+    for structured in (False, True):
+        for use_cache in (None, True, False):
+            for lock in (None, 7, "corrupt", "empty"):
+                for tree in ({"f1.rs": [rl.S(11), rl.S(12, ref=3)], "f2.rs": [rl.S(21)]},
+                             {"f1.rs": [rl.S(11, ref=1)], "f2.rs": [rl.S(21, ref=2), rl.S(22, kind="unusable")]},
+                             {"f1.rs": [rl.S(11)], "f2.rs": []}):
+                    for bad in ((), ("f2.rs",)):
+                        sc = rl.Scenario("cfg-%d" % n, tree, lock=lock, structured=structured, use_cache=use_cache,
+                                         bad=bad, extra_files=extra)
+                        n += 1
+                        rl.planned_runs(binary, sc, [[("check", "")]], batch, v,
+                                        sigbase={"use_cache": use_cache, "lock": str(lock)})
+    # runs that fail: every operation failing / signalled / killed
+    kinds = ["EIO", "EACCES", "TERM", "INT", "kill_after"] if tier == "thorough" else ["EIO", "TERM", "kill_after"]
+    for structured in (False, True):
+        for sc in rl.small_trees(structured=structured, lock=5):
+            sc.kw["extra_files"] = extra
+            K, k = rl.sweep(binary, sc, "check", kinds, batch, v)
+    batch.judge(v, {"C04"})
+    v.cov["rule"] = ("--check on every combination of (structured, use_cache omitted/true/false, lock absent/valid/corrupt/"
+                     "empty, tree class, unreadable file), plus faults/signals/kill at every operation of a check run; "
+                     "no mutating operation in the trace and an identical deep snapshot (names, types, modes, inodes, "
+                     "mtimes, contents) of project, config and temp directories")
+    return v.finish()
+
+
+TABLE = {"C07": c07, "C08": c08, "C18": c18, "C04": c04}
